@@ -331,6 +331,34 @@ func init() {
 			d2.CbFailAt = 2
 			add("root/cbfail/walk", d2, k1, w2)
 		}
+		// 7b. more roots than the pipeline holds in flight; cancellation and a late reader failure while the splitter is
+		// parked on a hand-over; one worker per stage
+		{
+			many := ""
+			for i := 0; i < 8; i++ {
+				many += fmt.Sprintf("- r%d\n  - k%d\n", i, i)
+			}
+			w1 := map[string]int{"*": 1}
+			for _, op := range []string{"out-text", "walk", "out-json"} {
+				add("many/valid/"+op, NewDrv(op, many), k1, w2)
+				add("many/valid-w1/"+op, NewDrv(op, many), k1, w1)
+				c := NewDrv(op, many)
+				c.Canceller = true
+				add("many/canceller/"+op, c, k1, w2)
+				c1 := NewDrv(op, many)
+				c1.Canceller = true
+				add("many/canceller-w1/"+op, c1, k1, w1)
+			}
+			r := NewDrv("out-text", many)
+			r.ReaderFailAfter = len(many) - 3
+			add("many/readerfail-late/out-text", r, k1, w2)
+			wf := NewDrv("out-text", many)
+			wf.WriterFailAt = 5
+			add("many/writerfail/out-text", wf, k1, w1)
+			cb := NewDrv("walk", many)
+			cb.CbFailAt = 6
+			add("many/cbfail/walk", cb, k1, w1)
+		}
 		// 8. # heading roots (the parser flag shared by all generator workers)
 		add("sharp/out-text", NewDrv("out-text", "# a\n# b\n"), k1, w2)
 		return out
